@@ -136,7 +136,17 @@ def handle_trace_data_thread_terminate_pid(parser, events):
     return event
 
 
+def is_string_continuation(events):
+    """
+    Strings longer than one record are split by the kernel, only the first record has the START qualifier.
+    The following records are reported with the record that ends the string and not on their own.
+    """
+    return not events[0].func_qualifier & DgbFuncQual.DBG_FUNC_START.value
+
+
 def handle_trace_string_global(parser, events):
+    if is_string_continuation(events):
+        return None
     debugid = 0
     str_id = 0
     vstr = b''
@@ -176,6 +186,8 @@ def handle_trace_string_proc_exit(parser, events):
 
 
 def handle_trace_string_threadname(parser, events):
+    if is_string_continuation(events):
+        return None
     name = b''.join([e.data for e in events]).replace(b'\x00', b'').decode()
     event = TraceStringThreadname(events, name)
     parser.tids_names[events[0].tid] = event.name
@@ -183,6 +195,8 @@ def handle_trace_string_threadname(parser, events):
 
 
 def handle_trace_string_threadname_prev(parser, events):
+    if is_string_continuation(events):
+        return None
     name = b''.join([e.data for e in events]).replace(b'\x00', b'').decode()
     event = TraceStringThreadnamePrev(events, name)
     parser.tids_names[events[0].tid] = event.name
